@@ -19,7 +19,8 @@ ENERGIES = list(ENERGIES_QUICK)
 THETAS = [0.0, 1e-3, math.pi / 4, math.pi / 2, 2.5, math.pi]
 PHIS = [0.0, math.pi / 3, math.pi / 2, 4.0]
 DENSITIES = [-1.0, 0.0, 0.5, 2.7]
-UNKNOWN = ['', 'Xx', 'Water', 'water, liquid', 'H2O ', 'Rf', 'H0', '(H2O', 'Kapton', 'Ca5(PO4)3f', None]
+UNKNOWN = ['', 'Xx', 'Water', 'water, liquid', 'H2O ', 'Rf', 'H0', '(H2O', 'Kapton', 'Ca5(PO4)3f', None,
+           'H2O)(', 'Ca)(CO3', 'Si)O2(', 'H2)(O', ')(H2O', 'Ca5)PO4(3F']      # a closing bracket before its opening one, totals equal
 
 
 def resolve(X, name):
